@@ -465,7 +465,7 @@ namespace Givaro
 
     inline Modular<Log16>::Rep& Modular<Log16>::init( Rep& a, const double i) const
     {
-        return init(a,(int64_t)i);
+        return init(a,(int64_t)std::fmod(i,(double)_p));
     }
     inline Modular<Log16>::Rep& Modular<Log16>::init( Rep& a, const float i) const
     {
